@@ -52,6 +52,9 @@ func catalogue(tier string) []shp {
 		shp{"box+box-hole", [][][][2]int64{{box(0, 0, 2, 6)}, {box(4, 0, 8, 6), box(5, 1, 7, 3)}}, false},
 		shp{"island-in-hole", [][][][2]int64{{box(0, 0, 8, 8), box(2, 2, 6, 6)}, {box(3, 3, 5, 5)}}, false},
 		shp{"pentagon", [][][][2]int64{{{{1, 0}, {5, 0}, {6, 3}, {3, 6}, {0, 3}}}}, false},
+		// a non-convex (U-shaped) hole: an operand can have all its vertices in
+		// the hole's arms while an edge crosses the notch between them
+		shp{"box-Uhole", [][][][2]int64{{box(0, 0, 8, 8), {{1, 1}, {7, 1}, {7, 7}, {5, 7}, {5, 3}, {3, 3}, {3, 7}, {1, 7}}}}, false},
 	)
 	return out
 }
@@ -366,7 +369,7 @@ func main() {
 		return
 	}
 	rep = report.New("C01", tier, "model_checking")
-	rep.Rule = "E1: operand catalogue (9 (36) axis-aligned boxes, 2 triangles, L, C, pentagon, box with 1 and 2 holes, two disjoint boxes, box + box-with-hole, island inside a hole) in both windings for A and B, B translated by every vector of a 4x4 (8x8) odd-integer grid + (0.37,0.41), every receiver/argument cast {Polygon, MultiPolygon, *Bounds} x {Intersection, Union, Difference, XOr}; the catalogue pairs again under 3 affine maps with non-representable coefficients (rotation by 30 deg, shear+scale, reflection; areas scale by |det|, references on the integer pre-images); pairs not in general position (exact integer test) are skipped and counted. Oracle: even-odd membership of ~2400 lattice points with an exactly verified 0.05 margin must equal the boolean combination; region area of the result (slab decomposition) must equal the slab-decomposition area of the true region (rel 1e-9); rings closed for Polygon/MultiPolygon receivers; empty result only if the true area is 0. Non-trivial = operand pairs that cross or nest."
+	rep.Rule = "E1: operand catalogue (9 (36) axis-aligned boxes, 2 triangles, L, C, pentagon, box with 1 and 2 holes, two disjoint boxes, box + box-with-hole, island inside a hole, box with a U-shaped hole) in both windings for A and B, B translated by every vector of a 4x4 (8x8) odd-integer grid + (0.37,0.41), every receiver/argument cast {Polygon, MultiPolygon, *Bounds} x {Intersection, Union, Difference, XOr}; the catalogue pairs again under 3 affine maps with non-representable coefficients (rotation by 30 deg, shear+scale, reflection; areas scale by |det|, references on the integer pre-images); pairs not in general position (exact integer test) are skipped and counted. Oracle: even-odd membership of ~2400 lattice points with an exactly verified 0.05 margin must equal the boolean combination; region area of the result (slab decomposition) must equal the slab-decomposition area of the true region (rel 1e-9); rings closed for Polygon/MultiPolygon receivers; empty result only if the true area is 0. Non-trivial = operand pairs that cross or nest."
 	cat := catalogue(tier)
 	offs := []int64{-7, -3, 1, 5}
 	if tier == "thorough" {
